@@ -706,6 +706,11 @@ func init() {
 			c20ServeIn{Items: []c20Item{{"header", "Referer"}}, Reqs: []c20ServeReq{base}},
 			// the upstream breaks in the middle of a streamed body: the client must not get it as a complete response
 			c20ServeIn{Items: urls, Reqs: []c20ServeReq{with(func(q *c20ServeReq) { q.Up = c20Up{Info: []int{}, Status: 200, Chunks: []int{33}, Cut: true} }), base}},
+			// HSTS configured, early hints first: the header must be on the final response (repo fix 3162882)
+			c20ServeIn{Items: urls, Cfg: c20SCfg{STS: 31536000, Sub: true}, Reqs: []c20ServeReq{with(func(q *c20ServeReq) {
+				q.TLS = &c20TLS{Ver: 0x0304, CS: 0x1301}
+				q.Up = c20Up{Info: []int{103}, Status: 200, Chunks: []int{13}}
+			})}},
 			// compression configured and asked for: status and size in the log are what the client connection got
 			c20ServeIn{Items: urls, Cfg: c20SCfg{Gzip: true}, Reqs: []c20ServeReq{with(func(q *c20ServeReq) {
 				q.Hdr = []c20Hdr{{K: "Accept-Encoding", V: []string{"gzip"}}}
